@@ -5,7 +5,7 @@
 (* A result text is tokenised by the recorder into                          *)
 (*   fields (numbers between colons), widths, fd (fraction digits), dot.    *)
 (***************************************************************************)
-EXTENDS CodeText, Integers
+EXTENDS SortKey          \* CodeText, Integers, and the distance a code states (StatedDistance, RelayParts)
 
 RECURSIVE ValF(_, _)
 ValF(ds, acc) == IF ds = <<>> THEN acc ELSE ValF(Tail(ds), 10 * acc + Head(ds))
@@ -13,13 +13,16 @@ Centis(fd) == IF fd = <<>> THEN 0 ELSE IF Len(fd) = 1 THEN fd[1] * 10 ELSE fd[1]
 
 \* event class of a discipline (code points), decided by the automaton
 IsCustom(s) == Accepts("PAT_HIGHSCORING_EVENT", s) \/ Accepts("PAT_LOWSCORING_EVENT", s)
-ClassOfEvent(s, loose) ==
-    IF loose THEN "timed"
-    ELSE IF IsCustom(s) \/ Accepts("PAT_RACES_FOR_DISTANCE", s) THEN "other"
-    ELSE IF Accepts("PAT_MULTI", s) THEN "multi"
-    ELSE IF Accepts("PAT_FIELD", s) THEN "field"
-    ELSE IF Accepts("PAT_TIMED_EVENT", s) THEN "timed"
-    ELSE "other"
+\* A code belongs to every class whose pattern accepts it; C04 shows the classes disjoint on the current tree, but the
+\* clauses of C12 are stated per class ("for timed events ..."), so a code that a changed pattern puts into two classes
+\* has to satisfy both (seed C12-g: '60H' became a fixed-duration race as well and escaped the time-text clauses).
+ClassesOfEvent(s, loose) ==
+    IF loose THEN {"timed"}
+    ELSE IF IsCustom(s) THEN {"other"}          \* H1..H9, L1..L9, BAL, SPB: scored on their own scales, no record, no shape
+    ELSE LET c == (IF Accepts("PAT_MULTI", s) THEN {"multi"} ELSE {})
+                  \cup (IF Accepts("PAT_FIELD", s) THEN {"field"} ELSE {})
+                  \cup (IF Accepts("PAT_TIMED_EVENT", s) THEN {"timed"} ELSE {})
+         IN IF c = {} THEN {"other"} ELSE c
 
 \* h:mm:ss.xx with seconds (and, under hours, minutes) below 60; a lone seconds field may run to 99.99
 \* (R4: the function's own rule is "use mm:ss above 99 seconds", and its tests expect '63.10' for 400 m)
@@ -40,6 +43,39 @@ SpeedFail(res, dist) ==
     ELSE LET d == DurationC(res) IN
          IF d = 0 THEN {"speed_outside_sanity_limits"}
          ELSE IF 200 * dist >= d /\ dist * 100 <= (IF dist <= 400 THEN 11 ELSE 10) * d THEN {} ELSE {"speed_outside_sanity_limits"}
+\* The distance the code itself states, computed here from its text - never through get_distance, the code under test
+\* (seed C12-g: a changed pattern made get_distance('60H') answer None and the speed clause fell silent).
+RoadDistance(s) ==
+    LET w == W(s)
+        ip == LeadDigits(w)
+        r1 == SubSeq(w, Len(ip) + 1, Len(w))
+        dot == r1 # <<>> /\ Head(r1) = 46
+        fr == IF dot THEN LeadDigits(Tail(r1)) ELSE <<>>
+        tail == IF dot THEN SubSeq(r1, Len(fr) + 2, Len(r1)) ELSE r1
+        milli == ValD(ip, 0) * 1000 + ValD(PadMilli(fr, 3), 0)
+    IN IF w \in {<<72, 77>>, <<72, 77, 87>>} THEN 21097 ELSE IF w \in {<<77, 65, 82>>, <<77, 65, 82, 87>>} THEN 42195
+       ELSE IF w \in {<<77, 73, 76, 69>>, <<77, 73, 76, 69, 87>>} THEN 1609
+       ELSE IF ip = <<>> \/ Len(ip) > 3 \/ Len(fr) > 3 THEN -1
+       ELSE IF tail \in {<<75>>, <<75, 87>>} THEN milli
+       ELSE IF tail \in {<<77>>, <<77, 87>>} THEN (1609 * milli) \div 1000
+       ELSE -1
+StatedAny(s) ==
+    LET F == Families(s) IN
+    IF F \cap {"PAT_TRACK", "PAT_HURDLES"} # {} THEN StatedDistance(s)
+    ELSE IF "PAT_RELAYS" \in F THEN (LET rp == RelayParts(s) IN IF rp.leg > 0 /\ rp.legs > 0 THEN rp.legs * rp.leg ELSE -1)
+    ELSE IF "PAT_ROAD" \in F THEN RoadDistance(s)
+    ELSE -1
+\* the same limits with 15 % slack (yards read as metres, 1609 vs 1609.344, truncated relay legs): a result this far
+\* outside is wrong whatever the estimator says
+SpeedFailStated(res, code) ==
+    LET dist == StatedAny(code) IN
+    IF ~res.ok \/ Len(res.fields) \notin 1..3 \/ dist <= 0 \/ dist > 100000 \/ (Len(res.fields) = 3 /\ res.fields[1] > 500)
+       \/ ~AsciiOnly(code) THEN {}          \* LeadDigits reads ASCII digits only
+    ELSE LET d == DurationC(res) IN
+         IF d = 0 THEN {"speed_not_checked_for_stated_distance"}
+         ELSE IF 230 * dist < d THEN {"speed_not_checked_for_stated_distance"}
+         ELSE IF d <= 10000000 /\ dist * 100 > 12 * d + (65 * d) \div 100 THEN {"speed_not_checked_for_stated_distance"}
+         ELSE {}
 FieldFail(res, rec120c) ==
     IF ~res.ok \/ Len(res.fields) # 1 \/ Len(res.fd) # 2 \/ ~res.dot THEN {"field_result_not_two_decimal_number"}
     ELSE IF rec120c >= 0 /\ res.fields[1] < 10000 /\ res.fields[1] * 100 + Centis(res.fd) > rec120c THEN {"field_result_absurdly_beyond_record"} ELSE {}
